@@ -401,6 +401,10 @@ def return_shape_mismatches(prog: Program, f: Func) -> list[tuple[ast.AST, str]]
                     out.append((r, f"{g.key} returns {len(v.elts)} values, {f.key} unpacks {want}"))
             elif isinstance(v, (ast.Constant, ast.JoinedStr, ast.List, ast.Dict, ast.Compare, ast.BoolOp)) and not (isinstance(v, ast.Constant) and v.value is None and False):
                 out.append((r, f"{g.key} returns `{norm(v)[:30]}` (not a {want}-tuple), {f.key} unpacks {want}"))
+            elif isinstance(v, ast.Call) and (
+                    (isinstance(v.func, ast.Attribute) and v.func.attr in ("model_copy", "rebuild", "strip", "join", "format"))
+                    or (isinstance(v.func, ast.Name) and (v.func.id[:1].isupper() or v.func.id in ("replace", "str", "list", "dict", "layout_from_gap")))):
+                out.append((r, f"{g.key} returns `{norm(v)[:40]}` (one object), {f.key} unpacks {want}"))
             elif isinstance(v, ast.Name):
                 # a local assigned only from constructor calls / non-tuples
                 ds = [d for d in ast.walk(g.node) if isinstance(d, ast.Assign) and len(d.targets) == 1 and norm(d.targets[0]) == v.id]
